@@ -745,8 +745,33 @@ def shrink(ctx, exe, line):
     return cur
 
 
+def translate_and_prove(ctx, groups):
+    """T1 + proof obligations: regenerate the translator groups from the working tree, then re-check the theorems (which
+    include `model = generated definition`).  A group that no longer translates, or a theorem that no longer checks against
+    the regenerated definitions, is a broken tie.  coq/Gen is shared by all checks: if another process regenerated the group
+    from another tree while the theorems were being checked, the step is repeated."""
+    sys.path.insert(0, os.path.join(vlib.TOOLS, "c2g"))
+    import genall
+    r = None
+    for attempt in range(3):
+        st = genall.run(list(groups))
+        nb, ob, di = len(ctx.broken), ctx.cov["obligations"], ctx.cov["discharged"]
+        for g, s_ in st.items():
+            ctx.log("c2g", g, s_)
+            if s_.startswith("FAILED"):
+                ctx.tie_broken("translator group " + g, s_)
+        r = ctx.props()
+        st2 = genall.run(list(groups))
+        if not any("(changed)" in v for v in st2.values()):
+            return r
+        ctx.log("coq/Gen was regenerated by another process during the proof step: repeating")
+        del ctx.broken[nb:]
+        ctx.cov["obligations"], ctx.cov["discharged"] = ob, di
+    return r
+
+
 def run(ctx):
-    ctx.props()
+    translate_and_prove(ctx, ["IoC11"])
     v = ctx.variant(mpi="off", san=True)
     exe = ctx.cc([os.path.join(vlib.TOOLS, "harness", "c11_harness.c")], os.path.join(ctx.scratch, "c11_harness"), v, extra=[WRAP])
     cases = gen_cases(ctx)
@@ -819,7 +844,10 @@ def run(ctx):
     ctx.notes["memory_end"] = end
     for c in cases[len(FIXED):: max(1, len(cases) // 4)][:4]:
         ctx.sample({"case": c[:200]})
-    ctx.cov["trusted_base"] += ["stdio contract of the model: fwrite/fread/fflush/fseek/fclose do what is asked unless the case injects a fault "
+    ctx.cov["trusted_base"] += ["T1: the integer decisions of the model (rounding to whole elements and size check of sc_io_sink_write, counters, AGAIN tests, alignment fill, available / taken "
+                                "bytes and exact-request test of sc_io_source_read, window arithmetic of sc_io_file_load) are proved EQUAL to Gen/IoC11.v, regenerated from the working tree on "
+                                "every run (tools/c2g + clang-14 JSON AST trusted; validated through the model they are proved equal to, which the correspondence run executes)",
+                                "stdio contract of the model: fwrite/fread/fflush/fseek/fclose do what is asked unless the case injects a fault "
                                 "(the harness injects the same faults into the real calls with ld --wrap)",
                                 "size_t arithmetic of sc_io.c is modelled without wrap-around (byte counts below 2^63)",
                                 "sc_array_resize is modelled by its contract for owner arrays (content preserved up to the smaller size, tail arbitrary); "
